@@ -823,7 +823,8 @@ def literal_block(n, opts):
 
 def p_quote_prefix_after_literal(case):
     """a block written as a bare literal ending in a newline (HTML block, indented code block) that is followed
-    by something inside an enclosing block quote: the blank line after it is written without the `>` prefix"""
+    by something inside an enclosing block quote: the blank line after it was written without the `>` prefix.
+    REPAIRED (repo_fix_cm_2, known_findings status fixed): the predicate only names a regression now"""
     for b in case.nodes(("HtmlBlock", "CodeBlock")):
         if not literal_block(b, case.opts):
             continue
@@ -836,6 +837,7 @@ def p_quote_prefix_after_literal(case):
 
 
 def p_empty_dest_title(case):
+    """REPAIRED (repo_fix_cm_3, known_findings status fixed): the predicate only names a regression now"""
     return any(not l.lit(0) and l.lit(1) for l in case.nodes(("Link", "Image")))
 
 
@@ -1043,8 +1045,9 @@ def p_tight_item_para_then_hr(case):
 
 def p_ctrl_char_line_start(case):
     """a Text literal starting with a byte < 0x20 is the first thing on a line inside a container with a
-    non-empty prefix (block quote, list item): outc writes the `&#N;` form through Write::write, which
-    emits the container prefix a second time because begin_line is still set"""
+    non-empty prefix (block quote, list item): outc wrote the `&#N;` form through Write::write, which
+    emitted the container prefix a second time because begin_line was still set.
+    REPAIRED (repo_fix_cm_1, known_findings status fixed): the predicate only names a regression now"""
     for h, ls in holder_line_texts(case):
         if under(h, ("BlockQuote", "Item", "TaskItem")):
             if any(l[:1] and l[0] < 0x20 for l in ls):
@@ -1435,11 +1438,59 @@ def shape_of(n):
     return ",".join(out)
 
 
+def opts_of_witness(tok):
+    """option token of a recorded witness -> option dict (unsafe on, as for every generated case)"""
+    o = {"unsafe": True}
+    if tok not in ("-", "", None):
+        for kv in tok.split(","):
+            k, _, v = kv.partition("=")
+            o[k] = int(v) if k in ("width", "ol_width") else v if k == "list_style" else True
+    return o
+
+
+def recorded_entries(prop, status):
+    """entries of known_findings.json for prop with the given status whose witness is a (doc, opts) pair"""
+    import json
+    with open(os.path.join(vlib.ROOT, "known_findings.json")) as f:
+        data = json.load(f)
+    return [e for e in data.get("findings", []) if e.get("property") == prop and e.get("status") == status
+            and isinstance(e.get("witness"), dict) and "doc" in e["witness"]]
+
+
+def replay_witnesses(c, prop, fail, ask):
+    """fixed classes: the recorded witness must PASS now (a fixed entry suppresses nothing: a repaired
+    failure that returns is a violation, found here deterministically and not only by the random search).
+    known classes: the witness is replayed and reported (still failing or not); no verdict."""
+    rows = []
+    for e in recorded_entries(prop, "fixed"):
+        w = e["witness"]
+        o = opts_of_witness(w.get("opts"))
+        r = parse_rt3(ask(rt3_line(w["doc"], o)), w["doc"], o)
+        bad = fail(r, ask)
+        c.count(("fixed-witness:" + e["class"]).encode(), True)
+        rows.append({"id": e["id"], "class": e["class"], "passes": not bad})
+        if bad:
+            c.violation(f"{prop}: the witness of the repaired class {e['class']} ({e['id']}) fails: the repair is missing from this tree or the defect has returned",
+                        {"doc": hx(w["doc"]), "opts": docgen.opts_token(o), "doc_text": w["doc"], "class": e["class"],
+                         "c1": (r.bytes_of("c1") or b"").decode("utf-8", "replace")[:400], "c2": (r.bytes_of("c2") or b"").decode("utf-8", "replace")[:400],
+                         "h1": (r.bytes_of("h1") or b"").decode("utf-8", "replace")[:400], "h2": (r.bytes_of("h2") or b"").decode("utf-8", "replace")[:400],
+                         "line": rt3_line(w["doc"], o)})
+    c.cov["spec_checks"][f"{prop} witnesses of repaired classes pass"] = rows
+    still = {}
+    for e in recorded_entries(prop, "known"):
+        w = e["witness"]
+        o = opts_of_witness(w.get("opts"))
+        r = parse_rt3(ask(rt3_line(w["doc"], o)), w["doc"], o)
+        still[e["class"]] = bool(fail(r, ask, False) if prop == "C07" else fail(r, ask))
+    c.cov["known_witnesses_still_failing"] = {"failing": sum(still.values()), "of": len(still), "not_failing": sorted(k for k, v in still.items() if not v)}
+
+
 def run(c, prop, tier):
     """the end-to-end search shared by C07 and C17; prop selects the failure test and the known classes"""
     import time
     fail = fail07 if prop == "C07" else (lambda r, ask, ws=True: fail17(r))
     known = {e["class"]: e for e in c.known}
+    repaired = {e["class"]: e for e in recorded_entries(prop, "fixed")}
     rng = c.rng
     n = 6000 if tier == "quick" else 120000
     if tier != "quick" and os.environ.get("VERIF_N", "").isdigit():
@@ -1463,6 +1514,7 @@ def run(c, prop, tier):
     proc = Proc(vlib.VH["release"])
     ask = proc.ask
     drv = vlib.DRIVER
+    replay_witnesses(c, prop, fail, ask)
     counts = {}
     clean = ws_only = 0
     feat_fail = {}
@@ -1546,10 +1598,11 @@ def run(c, prop, tier):
                     coq = coq and bool(s.opts.get("strikethrough"))
                 if coq != (name in cl):
                     c.problem("correspondence", "rt_classes", f"class {name}: extracted predicate says {coq}, Python says {name in cl}", {"line": f"rt_classes {s.opts.get('ol_width', 0)} {s.t1}"})
+        back = [k for k in cl if k in repaired and k not in known]
         cl = [k for k in cl if k in known]
         if not cl:
             unclassified += 1
-            c.violation(f"{prop}: round trip failure outside every known class (after shrinking)",
+            c.violation(f"{prop}: round trip failure outside every known class (after shrinking)" + (f"; it has the shape of the repaired class {back[0]}" if back else ""),
                         {"doc": hx(s.doc), "opts": docgen.opts_token(s.opts), "doc_text": s.doc[:300], "original_doc": hx(r.doc), "original_opts": docgen.opts_token(r.opts),
                          "c1": (s.bytes_of("c1") or b"").decode("utf-8", "replace")[:400], "c2": (s.bytes_of("c2") or b"").decode("utf-8", "replace")[:400],
                          "h1": (s.bytes_of("h1") or b"").decode("utf-8", "replace")[:400], "h2": (s.bytes_of("h2") or b"").decode("utf-8", "replace")[:400],
